@@ -201,6 +201,29 @@ def run(ctx):
         n = rng.choice([None, 0, 1, 2, 3, la, le, max(0, la - (s or 0)), max(0, le - (es or 0)), -1])
         pad = None if rng.random() < 0.5 else ((rng.randint(0, 3), rng.randint(0, 2)), (rng.randint(0, 3), rng.randint(0, 2)))
         run_case(ctx, W, np, a, e, na, ne, s, es, n, dtype, reqs, pad=pad, dtype_e=dtype_e)
+    # ---- very long windows (whatever an implementation does for large comparisons: blocks, chunks): more than 2^20 compared cells, the
+    # two start samples different, a few genuine differences far into the window; the expectation is computed with NumPy from the table
+    table = np.zeros((8, 8), bool)
+    for x_ in range(8):
+        for y_ in range(8):
+            table[x_, y_] = not compat(x_, y_)
+    for nsig_, nsamp_, off_ in (((16, 65600, 5),) if ctx.quick else ((16, 65600, 5), (1, (1 << 20) + 300, 7), (8, 131200, 0), (3, 350000, 11))):
+        gen2 = np.random.default_rng(ctx.seed + nsig_)
+        exp_arr = gen2.integers(0, 2, (nsamp_ + off_, nsig_)).astype(np.uint8)
+        act_arr = exp_arr[off_:off_ + nsamp_].copy()
+        for r_ in (3, nsamp_ // 2, nsamp_ - 37, nsamp_ - 1, (1 << 20) // nsig_ + 7 if (1 << 20) // nsig_ + 7 < nsamp_ else 0):
+            c_ = int(gen2.integers(0, nsig_))
+            act_arr[r_, c_] = 1 - act_arr[r_, c_]
+        exp_arr[off_ + nsamp_ // 3, 0] = 5 if act_arr[nsamp_ // 3, 0] == 0 else 6      # an expected state that accepts the actual one: no failure
+        wa2, we2 = W.from_lines(act_arr), W.from_lines(exp_arr)
+        o = outcome(lambda: wa2.test(we2, start_sample=0, expected_start_sample=off_, sample_count=nsamp_))
+        fails = np.argwhere(table[act_arr, exp_arr[off_:off_ + nsamp_]])
+        want_f = [(int(r_), int(r_) + off_, nsig_ - 1 - int(c_), int(act_arr[r_, c_]), int(exp_arr[r_ + off_, c_])) for r_, c_ in fails]
+        ctx.case(("long-window", nsig_, nsamp_, off_))
+        got_f = None if o[0] != "ok" else [(int(f.sample_index), int(f.expected_sample_index), int(f.signal_index), int(f.actual_state), int(f.expected_state)) for f in o[1].failures]
+        if got_f != want_f:
+            ctx.violation(what="test over a window of more than 2^20 cells", signals=nsig_, samples=nsamp_, expected_start_sample=off_,
+                          observed=(show(o)[:120] if got_f is None else f"{len(got_f)} failures, first {got_f[:3]}"), required=f"{len(want_f)} failures, first {want_f[:3]}")
     # ---- windows given as narrow NumPy integer scalars on waveforms longer than those types can count -----------
     big_a = [[(i * 7 + 3) % 8] for i in range(300)]
     big_e = [[(i * 5 + 1) % 8] for i in range(300)]
